@@ -1,8 +1,8 @@
 (* C08/Props.v — the property theorems, nothing else.
-   Model: C08/Model.v.  Proofs: Frame.v, PassA.v, PassB.v, PassC.v, PassD.v, Chunk.v, Live.v. *)
+   Model: C08/Model.v.  Proofs: Frame.v, PassA.v, PassB.v, PassC.v, PassD.v, Chunk.v, Live.v, Live2.v. *)
 From Coq Require Import List NArith ZArith Bool.
 Import ListNotations.
-Require Import Base.Wire Base.PyStr C08.Model C08.Frame C08.PassA C08.PassB C08.PassC C08.PassD C08.Chunk C08.Live.
+Require Import Base.Wire Base.PyStr C08.Model C08.Frame C08.PassA C08.PassB C08.PassC C08.PassD C08.Chunk C08.Live C08.Live2.
 
 (* For every configuration, every state satisfying the invariant (in particular
    the state right after a reset) and EVERY sequence of server messages
@@ -107,20 +107,29 @@ Print Assumptions C08_sasl_payload_ends.
    bot and server in lock step for k rounds from the start of a connection;
    [finished] = CONNECTED, CONNECTED_SASL, or a Reconnect/Die was emitted.
 
-   Full statement (C08_liveness), with rounds c = 2 * length (c_mechs c) + 3:
-     forall c sigma, cfg_ok c -> conformant sigma ->
-       exists k, k <= rounds c /\ finished (game c sigma k)
-   where cfg_ok c: the wanted capabilities are tokens, the mechanisms are
-   plain/external and the credential chunk lists are [payload]s (auth_gen, see
-   C08_sasl_payload_ends).  As stated it is FALSE for the pinned code when
-   sasl.required is set and every mechanism fails (finding C08.F25, witness
-   below).  PROVED so far: the clause for every configuration that does not
-   want 'sasl' (no usable credentials), any capability set, any conformant
-   strategy, within 3 rounds (measure: LS reply -> answers to CAP REQ -> welcome
-   burst); PARTIAL (C08_liveness_partial, not proved): configurations with SASL
-   mechanisms, where the measure is 2 * (mechanisms left) + 3; they are
-   exercised by the harness with the same strategy definition, and three
-   instances are checked below. *)
+   C08_liveness below is the statement for every configuration whose mechanisms
+   are PLAIN / EXTERNAL (cfg_ok: capability names are tokens, the PLAIN response
+   is a [payload], which is what authenticate_generator produces:
+   C08_sasl_payload_ends), sasl.required or not, for every conformant strategy,
+   within 2 * |mechanisms| + 3 rounds.  Measure: 2 * (mechanisms left) + the
+   rounds of the phase (LS reply; answers to CAP REQ; per mechanism: the answer
+   to AUTHENTICATE MECH, the answer to the credentials; welcome burst).  Since the
+   fix of finding C08.F25 the sasl.required case is part of it: when the last
+   mechanism fails the bot drops the connection.
+   Outside (C08_liveness_ecdsa_partial, NOT proved): ECDSA-NIST256P-CHALLENGE
+   (a second, challenge round whose server answer is an AUTHENTICATE <challenge>;
+   the conformance relation has no challenge answer, and with an unreadable key
+   the bot's `AUTHENTICATE *` path raises TypeError) and SCRAM (not available in
+   the pinned environment: AttributeError).  The harness plays the ECDSA
+   configuration against the same strategies.
+   C08_liveness_nosasl is the earlier statement for configurations that do not
+   want 'sasl', whatever their mechanism list and credentials are. *)
+Theorem C08_liveness :
+  forall c sigma, cfg_ok c -> conformant sigma ->
+  exists k, (k <= 2 * length (c_mechs c) + 3)%nat /\ finished (game c sigma k).
+Proof. intros c sigma Hc Hs. exact (liveness_sasl c Hc sigma Hs). Qed.
+Print Assumptions C08_liveness.
+
 Theorem C08_liveness_nosasl :
   forall c sigma, nosasl c -> conformant sigma ->
   exists k, (k <= 3)%nat /\ finished (game c sigma k).
@@ -150,16 +159,19 @@ Theorem C08_liveness_witnesses :
 Proof. exact liveness_witnesses. Qed.
 Print Assumptions C08_liveness_witnesses.
 
-(* the full statement refuted on the pinned code (finding C08.F25): sasl.required, the server ACKs
-   'sasl' and fails PLAIN with 904: INIT_SASL, nothing dropped, the server has nothing left to answer,
-   and the game does not move any more *)
-Theorem C08_liveness_required_refuted :
+(* non-vacuity of C08_liveness: the PLAIN configurations used in the witnesses satisfy cfg_ok, with and without sasl.required *)
+Theorem C08_liveness_hypothesis_met_sasl : cfg_ok (cfg_plain true) /\ cfg_ok cfg_required1.
+Proof. exact (conj (cfg_plain_ok true) cfg_required1_ok). Qed.
+Print Assumptions C08_liveness_hypothesis_met_sasl.
+
+(* the old witness of finding C08.F25 (fixed): sasl.required, the server ACKs 'sasl' and fails PLAIN with 904:
+   nothing is dropped after 2 rounds, the connection is dropped in round 3 *)
+Theorem C08_liveness_required_aborts :
   let sigma := strategy srv_all [0;0;0;0;0;1]%N in
-  let g := game cfg_required1 sigma 3 in
-  fsm (fst g) = INIT_SASL /\ existsb (existsb is_abort) (snd g) = false /\ sigma (snd g) = [] /\
-  game cfg_required1 sigma 7 = (fst g, [] :: [] :: [] :: [] :: snd g).
-Proof. exact liveness_required_stuck. Qed.
-Print Assumptions C08_liveness_required_refuted.
+  existsb (existsb is_abort) (snd (game cfg_required1 sigma 2)) = false /\
+  existsb (existsb is_abort) (snd (game cfg_required1 sigma 3)) = true.
+Proof. exact required_failure_aborts. Qed.
+Print Assumptions C08_liveness_required_aborts.
 
 (* After a reset the capability and SASL state is the initial one ... *)
 Theorem C08_reset_fresh :
